@@ -97,7 +97,10 @@ func (r *Runner[T]) reloadWithRestart(newConfig *Config[T]) error {
 
 	// Start all runnables from the new config
 	// This acquires the runnables mutex
-	if err := r.boot(r.ctx); err != nil {
+	r.runnablesMu.Lock()
+	ctx := r.ctx // written by Run() under runnablesMu
+	r.runnablesMu.Unlock()
+	if err := r.boot(ctx); err != nil {
 		return fmt.Errorf("%w: failed to start new runnables during membership change", err)
 	}
 	return nil
